@@ -184,7 +184,12 @@ pub fn worker(a: &[String]) -> i32 {
                 o["msg"] = json!(m);
                 o["loc"] = json!(l);
             }
+            // the parser does not look at the catalog: a parse error on the first schema is the outcome on all of them
+            let parse_err = o["k"] == "err" && o["cls"] == "Parse";
             sink.lock().unwrap().put(&o);
+            if parse_err {
+                break;
+            }
         }
     }
     current.store(-1, Ordering::SeqCst);
